@@ -147,6 +147,11 @@ func c09Mutate(r *mrand.Rand, seeds [][]byte) ([]byte, string) {
 			}
 			l := locs[r.Intn(len(locs))]
 			repl := gen.Pick(r, []string{"filename", "filename=", "=", ";", "filename==\"x\"", "FILENAME=x", "filename =x", "filename= x"})
+			if r.Intn(3) == 0 {
+				// the parameter as it is, followed by the same name with another value
+				orig := string(b[l[0]:l[1]])
+				repl = orig + "; " + string(b[l[2]:l[3]]) + "=" + gen.Pick(r, []string{"other", "\"other value\"", "", "\""})
+			}
 			b = append(append(append([]byte{}, b[:l[0]]...), repl...), b[l[1]:]...)
 			ops = append(ops, "param-shape")
 		case 2: // header line: delete / duplicate / truncate / empty value
@@ -183,7 +188,9 @@ func c09Mutate(r *mrand.Rand, seeds [][]byte) ([]byte, string) {
 			b = append(append(append([]byte{}, b[:l[3]]...), " "+gen.Pick(r, ctes)...), b[l[1]:]...)
 			ops = append(ops, "cte-swap")
 		case 4: // content type swap
-			cts := []string{"multipart/mixed", "multipart/related; boundary=zz", "multipart/alternative; boundary=", "text/plain", "text/html; charset", "bogus", "", "multipart/mixed; boundary=\"" + strings.Repeat("b", 80) + "\"", "message/rfc822", "multipart/signed; boundary=x", "text/plain; charset=\"", ";", "/", "a/b;c=d;e"}
+			cts := []string{"multipart/mixed", "multipart/related; boundary=zz", "multipart/alternative; boundary=", "text/plain", "text/html; charset", "bogus", "", "multipart/mixed; boundary=\"" + strings.Repeat("b", 80) + "\"", "message/rfc822", "multipart/signed; boundary=x", "text/plain; charset=\"", ";", "/", "a/b;c=d;e",
+				// a parameter given twice with different values (mime.ParseMediaType: "duplicate parameter name")
+				"text/plain; charset=UTF-8; charset=utf-8", "multipart/mixed; boundary=\"a\"; boundary=\"b\"", "multipart/alternative; boundary=x; boundary=y", "text/html; charset=a; CHARSET=b; charset=c", "multipart/related; boundary=zz; type=\"text/html\"; type=x"}
 			re := regexp.MustCompile(`(?i)(Content-Type:)[^\r\n]*`)
 			locs := re.FindAllSubmatchIndex(b, -1)
 			if len(locs) == 0 {
